@@ -342,6 +342,13 @@ def _accepted_between(cmds, names, lo, hi):
                and lo < c.get("invoke_pos", -1) < hi for c in cmds)
 
 
+def _grace_expired(ck):
+    """The command lasted a grace period (1 s, compared in truncated ms) by the wall
+    clock it reads or by monotonic virtual time (an injected clock step may fall
+    inside the command, before its loop takes its start time)."""
+    return ck[1] - ck[0] >= 0.9985 or ck[3] - ck[2] >= 0.9985
+
+
 def evaluate_overlap(case, r):
     H = r.hist.H
     findings = []
@@ -371,7 +378,7 @@ def evaluate_overlap(case, r):
         if c["name"] not in ("initialize", "cleanup"):
             continue
         ck = r.cmd_clock.get(c["index"])
-        if grace_fault and ck and ck[1] is not None and ck[1] - ck[0] >= 0.9985:
+        if grace_fault and ck and ck[1] is not None and _grace_expired(ck):
             # an injected stall / clock fault of about a second let the 1 s
             # grace period inside cleanup() expire: the abandoned run thread
             # may still deliver its last notifications afterwards (by design,
@@ -462,7 +469,7 @@ def evaluate_overlap(case, r):
                 break
         if c["name"] == "stop":
             ck = r.cmd_clock.get(c["index"])
-            if ck and ck[1] is not None and ck[1] - ck[0] >= 0.9985:
+            if ck and ck[1] is not None and _grace_expired(ck):
                 # the 1 s grace period of stop() expired: by design the
                 # command returns before the run thread reacted (the loop
                 # compares truncated milliseconds, so it can end after
